@@ -143,6 +143,13 @@ def r_sign_aux(j):
                                                 "true" if j["accept"] else "false", rbytes(j["sig"]), calls, b(j["aux_out"]))
 
 
+def r_sign_mut(j):
+    calls = "[%s]" % "; ".join("(%s, %s)" % (b(c[0]), "true" if c[1] else "false") for c in j["calls"])
+    return "CSignMut %s %s %s %s %s %s %s %s %d" % (nat(HASH_N[j["hash"]]), b(j["blob"]), b(j["msg_in"]), b(j["msg_out"]),
+                                                   b(j["pk"]), "true" if j["accept"] else "false", rbytes(j["sig"]), calls,
+                                                   j["hash_iterations"])
+
+
 def r_lifetime(j):
     return "CLifetime %s %s %s" % (nat(HASH_N[j["hash"]]), b(j["blob"]), rnum(j["life"]))
 
@@ -152,6 +159,7 @@ KINDS = {
     "sign": r_sign,
     "verify": r_verify,
     "lifetime": r_lifetime,
+    "sign_mut": r_sign_mut,
     "keygen_aux": r_keygen_aux,
     "sign_aux": r_sign_aux,
     "hash": r_hash,
